@@ -58,7 +58,7 @@ class OrderRun:
             return list(csv.reader(f))
 
 
-def run_order(scratch, text, chromosome_order, by_chrom=False, with_sequence=False, root=None, flip=False, name="g", suffix=".gfa", tag="o"):
+def run_order(scratch, text, chromosome_order, by_chrom=False, with_sequence=False, root=None, flip=False, name="g", suffix=".gfa", tag="o", keep_outdir=False):
     from gaftools.cli import order_gfa
 
     install_biccs_wrapper()
@@ -71,8 +71,9 @@ def run_order(scratch, text, chromosome_order, by_chrom=False, with_sequence=Fal
     else:
         fw.write_text(inp, text)
     outdir = os.path.join(scratch, f"out-{tag}")
-    shutil.rmtree(outdir, ignore_errors=True)
-    os.makedirs(outdir)
+    if not keep_outdir:
+        shutil.rmtree(outdir, ignore_errors=True)
+    os.makedirs(outdir, exist_ok=True)
     _ENV["root"], _ENV["flip"] = root, flip
     try:
         out = fw.guarded(order_gfa.run_order_gfa, gfa_filename=inp, outdir=outdir, by_chrom=by_chrom, chromosome_order=chromosome_order, with_sequence=with_sequence)
